@@ -3,7 +3,8 @@ JOBS = []
 PROPS = {}
 SOURCE_COMMITS = []   # hook commits in /repo (none: contracts live in /verif); fix: commits are listed in known_findings.txt
 # properties not (yet) claimed, with the reason that goes to MANIFEST.not_applicable
-UNCLAIMED = {}
+UNCLAIMED = {p: "no check is registered for this property yet (contracts planned in DESIGN.md section 4 are not built); nothing is claimed"
+             for p in ("C02", "C03", "C05", "C06", "C09", "C10", "C11", "C12", "C14", "C15", "C18", "C19")}
 
 
 def J(**kw):
